@@ -22,6 +22,17 @@ def main(argv=None) -> int:
     a = ap.parse_args(argv)
     logging.disable(logging.CRITICAL)
     prop = a.prop.upper()
+    # the library under check must be the tree we were pointed at (the interpreter also knows an installed copy)
+    want_src = os.path.realpath(os.environ.get("VERIF_REPO_SRC") or "/repo/src")
+    try:
+        import chuk_mcp
+        have = os.path.realpath(os.path.dirname(os.path.dirname(chuk_mcp.__file__)))
+    except Exception as e:  # noqa: BLE001
+        print(f"HARNESS-ERROR: property={prop} cannot import chuk_mcp from {want_src}: {e!r}")
+        return 2
+    if have != want_src:
+        print(f"HARNESS-ERROR: property={prop} chuk_mcp was imported from {have}, expected {want_src}")
+        return 2
     try:
         mod = importlib.import_module(f"vf.checks.{prop.lower()}")
     except ModuleNotFoundError as e:
